@@ -402,6 +402,15 @@ func (s *Store[K, V]) setShardWithoutLock(shard *Shard[K, V], hash uint64, key K
 		}
 	}
 
+	if ok && expire == 0 {
+		// the previous value has expired but is not reclaimed yet: the new value
+		// is a fresh one without TTL and must not inherit the passed deadline
+		if old := exist.expire.Load(); old != 0 && old <= s.timerwheel.clock.NowNano() {
+			exist.expire.Store(0)
+			result.reschedule = true
+		}
+	}
+
 	if ok {
 		exist.value = value
 		old := exist.weight.Swap(cost)
@@ -563,7 +572,7 @@ func (s *Store[K, V]) removeEntry(entry *Entry[K, V], reason RemoveReason) {
 		// entry might updated already
 		// update expire filed are protected by shard mutex
 		verifExpireYield(entry)
-		if entry.expire.Load() > s.timerwheel.clock.NowNano() {
+		if expire := entry.expire.Load(); expire == 0 || expire > s.timerwheel.clock.NowNano() {
 			// not removed: the entry stays tracked by the policy and the UPDATE
 			// event of the write that extended the deadline re-schedules it
 			return
@@ -701,7 +710,14 @@ func (s *Store[K, V]) sinkWrite(item WriteBufItem[K, V]) {
 		entry.policyWeight += item.costChange
 
 		if item.rechedule {
-			s.timerwheel.schedule(entry)
+			if entry.expire.Load() == 0 {
+				// the TTL was dropped by a Set over an expired value
+				if entry.meta.wheelPrev != nil {
+					s.timerwheel.deschedule(entry)
+				}
+			} else {
+				s.timerwheel.schedule(entry)
+			}
 		}
 
 		// create/update race
